@@ -37,3 +37,18 @@ Proof.
   split; [vm_compute; reflexivity|]. split; [|vm_compute; discriminate].
   vm_compute. repeat constructor.
 Qed.
+
+(** the benign cells of the matrix, as a theorem over all schedules: a link of data-preserving
+    toxics whose sender has closed and on which nothing can happen any more has no process left -
+    the reader has finished, every stage has returned and closed its stub, the writer has closed
+    the receiver - and everything was delivered (corollary of C01_no_deadlock) *)
+From TP Require Import Proofs.LinkInv Proofs.C01Proofs Proofs.C01Live.
+Theorem C15_preserving_chains_end_clean : forall chain src draws sd sigma l,
+  chain_ok chain ->
+  sched_run (link_init_slow chain src draws sd) sigma = Some l ->
+  terminal l -> l_rd l = RClosed -> all_done l /\ sink_bytes l = src_bytes src.
+Proof.
+  intros chain src draws sd sigma l Hc Hrun [Hnow Hnext] Hrd.
+  destruct (preserving_chains_end_clean chain src draws sd sigma l Hc Hrun Hnow Hnext Hrd) as (H1 & H2 & H3).
+  split; [|exact H3]. split; [exact Hrd|]. split; assumption.
+Qed.
